@@ -17,7 +17,7 @@ ID = "C03"
 TITLE = "descriptor before record, per stream"
 LEVEL = "exploration"
 RULE = (
-    "a fixed set of 27 record makers: an identifier-coincident pair (same name, same 32-bit hash, different fields), a "
+    "a fixed set of 28 record makers: an identifier-coincident pair (same name, same 32-bit hash, different fields), a "
     "same-name/different-fields pair (different hash), a holder whose inner type occurs only nested in a 'record' field, a "
     "holder with a record[] field whose elements are of the coincident types, a grouped record whose member types occur only "
     "there, a grouped record with members of the same-name pair, a keyword-field type, a grouped record with the same group name and flat field list as another one but other member types, a type whose records can fail while being packed (good and failing variant: the failing write raises and the application carries on), a grouped record with a member of a coincident type, two grouped records of one group name whose members differ only in a field type, name twins ('/' versus '_'), a descriptor cloned under a new name by the deprecated constructor form, a field-less marker type (plain and nested), grouped records nested in a record / record[] field whose member types occur nowhere else, a type whose descriptor is a NEW equal object for every record, a brand-new type for every record, two types of different names with the same 32-bit hash (flat and nested in one holder), a carrier whose dictlist DATA looks like the JSON adapter's definition of another type in use (its data slot is masked: only descriptors are judged there).  Histories: EXHAUSTIVE over all write "
@@ -43,7 +43,7 @@ BUDGET_S = {"quick": 200, "thorough": 2400}
 ANCHORS = ["flow.record.packer:RecordPacker.register", "flow.record.packer:RecordPacker.pack_obj", "flow.record.stream:RecordStreamWriter.on_new_descriptor",
            "flow.record.jsonpacker:JsonRecordPacker.register", "flow.record.adapter.jsonfile:JsonfileWriter.packer_on_new_descriptor"]
 
-NMAKERS = 27
+NMAKERS = 28
 BAD_MAKERS = {11}  # writing this record is expected to RAISE (unpackable value); the application carries on
 NONTRIVIAL_ALONE = {4, 5, 6, 7, 9, 12, 19, 20, 25}
 _COUNTER = itertools.count()
@@ -84,6 +84,7 @@ def makers():
     PX2 = RecordDescriptor("px/direc", [("string", "tory")])
     assert PX1.identifier[1] == PX2.identifier[1] and PX1.name != PX2.name
     CA = RecordDescriptor("carrier/dl", [("dictlist", "dl"), ("string", "s")])
+    DUP = RecordDescriptor("dup/field", [("string", "a"), ("string", "b"), ("varint", "a")])
 
     def mk(d, **kw):
         return d.recordType(_generated=g, **kw)
@@ -131,6 +132,9 @@ def makers():
         lambda i: mk(L, subs=[mk(PX2, tory="lt%d" % i), mk(PX1, ectory="le%d" % i)], n=(i + 3) % 65536),
         # 26: a record whose DATA (a dictlist element) looks like the JSON adapter's definition of the coincident type B
         lambda i: mk(CA, dl=[{"_type": "recorddescriptor", "_data": ["t/x", [["string", "a"], ["string", "listb"]]]}, {"k": i}], s="carrier%d" % i),
+        # 27: a definition that declares one field name twice (the library accepts it: one slot, last type): the emitted
+        # definition must be the declared list, or the identifier no longer belongs to it
+        lambda i: mk(DUP, a=i, b="dup%d" % i),
     ]
 
 
@@ -199,7 +203,7 @@ def flat_obs(g):
 
 
 MAKER_NAMES = {0: "t/x", 1: "t/x", 2: "same/name", 3: "same/name", 4: "holder/rec", 5: "holder/list", 6: "grp/only", 7: "grp/same", 8: "kw/type",
-               9: "grp/only", 10: "bad/able", 12: "grp/co", 13: "grp/t", 14: "grp/t", 15: "tw/in/x", 16: "tw/in_x", 17: "clone/of", 19: "holder/rec", 20: "holder/list", 21: "fresh/eq", 23: "px/dir", 24: "px/direc", 25: "holder/list", 26: "carrier/dl"}
+               9: "grp/only", 10: "bad/able", 12: "grp/co", 13: "grp/t", 14: "grp/t", 15: "tw/in/x", 16: "tw/in_x", 17: "clone/of", 19: "holder/rec", 20: "holder/list", 21: "fresh/eq", 23: "px/dir", 24: "px/direc", 25: "holder/list", 26: "carrier/dl", 27: "dup/field"}
 
 
 def created_with_ok(m, rec):
